@@ -1,3 +1,4 @@
+import FrappyModel.Spec.C05
 /-
 C05 — the transport of the update stream: what happens to a message after the dispatcher has handed it to
 `connection.send_reply` of a TCP connection.
@@ -87,6 +88,23 @@ def handed : List (TOp F) → List F
   | [] => []
   | .send f _ :: rest => f :: handed rest
   | .round :: rest => handed rest
+
+/-! ### a history of one parameter seen through the transport
+
+`Obs` (Spec/C05) = the messages handed to `send_reply` of the connection during one operation + the cache afterwards.
+Every message is sent with an outcome of `sendall` chosen by the peer (`rs`, missing = ok); after the operation the handler
+loop makes a round; the observation is what the peer has newly received and how the node treats the connection. -/
+open Frappy.Spec.C05 in
+def sendMsgs {S : Type} (c : Conn S) : List S → List SendRes → Conn S
+  | [], _ => c
+  | m :: ms, rs => sendMsgs (sendReply c m (rs.headD .ok)) ms rs.tail
+
+open Frappy.Spec.C05 in
+def through {S : Type} (c : Conn S) : List (Obs S × List SendRes) → List (TObs S)
+  | [] => []
+  | (o, rs) :: rest =>
+    let c' := loopRound (sendMsgs c o.msgs rs)
+    ⟨⟨(received c').drop (received c).length, o.cache⟩, garbled c', !c'.closed, c'.listed⟩ :: through c' rest
 
 /-! ### the variant a "tolerant" transport would be: a failed send is skipped, the connection goes on -/
 
